@@ -40,6 +40,7 @@ type frame struct {
 	names  map[string]Val
 	boxes  []boxed
 	variants map[*ssa.BasicBlock]string
+	pendingName string
 	parent *frame
 }
 
